@@ -261,6 +261,9 @@ def run(ctx):
         roots = ultimate_roots(prog, c.fn, c.args[0])
         from_diag = any("range" in field_path(o.proj) and ("Diagnostic" in (f.locals[o.ref] if o.kind in ("param", "local") else "") or True) and o.kind in ("param", "local", "call")
                         and diag_typed(f, o) for f, o in roots)
+        # the diagnostic's own range is acceptable only as the fallback next to RewriteData.range (payloads without a range)
+        from_data = any(any(p_.startswith(".range|") and "RewriteData" in p_ for p_ in o.proj) for f, o in roots)
+        from_diag = from_diag and not from_data
         ctx.ob("R5", "TextEdit in %s#%d" % (c.fn.id, sum(1 for x in sites[:i] if x.fn is c.fn)), not from_diag,
                "TextEdit range comes from %s" % "; ".join(describe_origin(f, o) for f, o in roots) + (" — the diagnostic (match) range, not the fixer's replaced range" if from_diag else ""),
                where=c.fn.loc(c.line))
